@@ -170,4 +170,21 @@ var c11Benign = []core.Mutant{
 	{Name: "refs-append-built-counting-loop", File: "annotate/way.go",
 		Find:    "\tids := make(osm.FeatureIDs, len(w.Way.Nodes))\n\tannotated := make([]bool, len(w.Way.Nodes))\n\n\tfor i := range w.Way.Nodes {\n\t\tids[i] = w.Way.Nodes[i].FeatureID()\n\t\tannotated[i] = w.Way.Nodes[i].Version != 0\n\t}\n",
 		Replace: "\tvar (\n\t\tids       osm.FeatureIDs\n\t\tannotated = make([]bool, 0, len(w.Way.Nodes))\n\t)\n\n\tfor n := 0; n < len(w.Way.Nodes); n++ {\n\t\tnode := &w.Way.Nodes[n]\n\t\tids = append(ids, node.FeatureID())\n\t\tannotated = append(annotated, node.Version != 0)\n\t}\n"},
+
+	// ---- round 7: reversal flag guards, right-sized copies of the result lists, pointers to locals / method values / defer
+	{Name: "reverse-flag-and-guard", File: "annotate/datasource.go",
+		Find:    "\t\tif i != 0 {\n\t\t\tc.ReverseOfPrevious = IsReverse(w, ways[i-1])\n\t\t}\n",
+		Replace: "\t\tc.ReverseOfPrevious = i > 0 && IsReverse(w, ways[i-1])\n"},
+	{Name: "reverse-flag-via-variable", File: "annotate/datasource.go",
+		Find:    "\t\tif i != 0 {\n\t\t\tc.ReverseOfPrevious = IsReverse(w, ways[i-1])\n\t\t}\n",
+		Replace: "\t\treversed := false\n\t\tif i >= 1 {\n\t\t\treversed = IsReverse(ways[i-1], w)\n\t\t}\n\t\tc.ReverseOfPrevious = reversed\n"},
+	{Name: "results-compacted-then-sorted", File: "annotate/internal/core/compute.go",
+		Find:    "\tfor _, r := range results {\n\t\tr.SortByIndex()\n\t}\n",
+		Replace: "\tfor i := range results {\n\t\tif r := results[i]; cap(r)-len(r) >= 32 {\n\t\t\tresults[i] = append(make(osm.Updates, 0, len(r)), r...)\n\t\t}\n\n\t\tresults[i].SortByIndex()\n\t}\n"},
+	{Name: "results-sorted-then-compacted", File: "annotate/internal/core/compute.go",
+		Find:    "\tfor _, r := range results {\n\t\tr.SortByIndex()\n\t}\n",
+		Replace: "\tfor i, r := range results {\n\t\tr.SortByIndex()\n\t\tif cap(r)-len(r) >= 32 {\n\t\t\tresults[i] = append(make(osm.Updates, 0, len(r)), r...)\n\t\t}\n\t}\n"},
+	{Name: "updates-through-pointer-and-method-value", File: "annotate/internal/core/compute.go",
+		Find:    "\t\t\t\t\tfor _, cl := range locs {\n\t\t\t\t\t\tu := child[k].Update()\n\t\t\t\t\t\tu.Index = cl.Index\n\t\t\t\t\t\tupdates = append(updates, u)\n\t\t\t\t\t}\n",
+		Replace: "\t\t\t\t\temit := func(dst *osm.Updates, build func() osm.Update) {\n\t\t\t\t\t\tdefer func() {}()\n\t\t\t\t\t\tfor i := range locs {\n\t\t\t\t\t\t\tu := build()\n\t\t\t\t\t\t\tu.Index = locs[i].Index\n\t\t\t\t\t\t\t*dst = append(*dst, u)\n\t\t\t\t\t\t}\n\t\t\t\t\t}\n\t\t\t\t\temit(&updates, child[k].Update)\n"},
 }
